@@ -71,11 +71,15 @@ Definition check_ecase (c : ecase) : bool :=
 Definition hyp_ok (prog : fprogram) (d : mdesc) : bool :=
   (prog_lags float prog <=? lags d)%nat && (prog_leads float prog <=? leads d)%nat.
 
-Inductive kcase3 : Type := K2 (c : kcase2) | KE (c : ecase) | KG (c : gcase).
+(* KL / KEL: the same comparisons WITHOUT the hypothesis check — used for the cases where the user lowered model.lags /
+   model.leads below what the equations need (outside the premise of the positive theorems; the model still mirrors fsic) *)
+Inductive kcase3 : Type := K2 (c : kcase2) | KE (c : ecase) | KG (c : gcase) | KL (c : kcase2) | KEL (c : ecase).
 Definition check_kcase3 (c : kcase3) : bool :=
   match c with
   | K2 (K1 (KS c)) => check_scase c && hyp_ok (s_prog c) (s_desc c)
   | K2 c => check_kcase2 c
   | KE c => check_ecase c && hyp_ok (e_prog c) (e_desc c)
   | KG c => check_gcase c
+  | KL c => check_kcase2 c
+  | KEL c => check_ecase c
   end.
